@@ -171,6 +171,21 @@ def check_c13(prop, tier):
     rep = new_report(prop, tier, VERUS_TECH + " (unit run: loop invariant on the time base of the extracted Cpu::run) + mechanical scan that no other code assigns the time-base fields")
     custom_check.run_verus_unit(rep, prop, "run", "Cpu::run")
     scan_time_base(rep)
+    # bounded stand-in through the real run() with the message-capture hook (real `sync:<total>` text, determinism)
+    n, fails = native.c13_bounded()
+    if n is None:
+        rep.inconclusive.append("native bounded C13 stand-in did not build/run: %s" % str(fails)[-300:])
+    else:
+        for c in native.C13_CLAUSES:
+            o = rep.add(Obl("C13/bounded/" + c, "native execution of hand-assembled guest programs (bounded)", unit="native_c13_bounded", fn="Cpu::run, Cpu::send_sync_message, Cpu::send_message (real)"))
+            if c in fails:
+                o.status = FAILED
+                o.detail = fails[c]
+                o.witness = {"case": fails[c]}
+            else:
+                o.status = DISCHARGED
+        rep.bounds.append("C13/bounded/*: %d hand-assembled guest programs (nested counted loops with a subroutine call and a port write, totals on both sides of 0, 4 and 9 sync thresholds; one failing program) run twice through the real Cpu::run (BOUNDED, natively, not counted as proved)" % n)
+        rep.cmds.append("cargo test --offline native_c13_bounded (RUSTFLAGS=--cfg koge29_verif, KOGE29_C13=1)")
     rep.assumptions.append("whole-run determinism is a corollary: every callee is safe Rust without clock or randomness and the host-time statements are proved non-interfering syntactically; stated, not mechanised")
     rep.assumptions.append("termination is not claimed (guest programs may loop)")
     rep.assumptions.append("cfg(test) configuration: the control-socket block is compiled out (C18 is not applicable to this technique)")
